@@ -454,6 +454,38 @@ func runC17Race(w *World, p map[string]int) {
 	if len(w.Violations) > 0 {
 		return
 	}
+	// keystore burst: requests that work on the selected wallet's key material
+	// (sign, reveal, export, passphrase check of a removal, new address, select)
+	// one after the other on goroutines of their own. The detector orders two
+	// requests only through the wallet's own locks, so a pair of such code paths
+	// that shares no lock is reported without any overlap in time.
+	if param(p, "mode", 0) == 1 {
+		var ks []apiCall
+		for _, c := range calls {
+			switch c.name {
+			case "SignRawTransaction", "GetWalletMnemonic", "ExportWallet", "RemoveWallet", "CreateAddress", "UseWallet":
+				ks = append(ks, c)
+				if c.name == "SignRawTransaction" {
+					ks = append(ks, c, c)
+				}
+			}
+		}
+		np := len(w.S.Panics)
+		for i, n := 0, 4+t.Int(5); i < n && len(ks) > 0 && len(w.Violations) == 0; i++ {
+			f.mis = []int{0, 0, 0, 8}[t.Int(4)]
+			call := ks[t.Int(len(ks))]
+			_, fn := call.make(f)
+			g := inst.Call(RoleClient, "api."+call.name, func() { fn() })
+			if !w.S.RunUntilDone(g, stepBudget) {
+				break
+			}
+			w.Stat("request.keystore_burst." + call.name)
+		}
+		if len(w.S.Panics) > np {
+			w.Violate("C17.panic", "keystore burst: %s", firstLines(w.S.Panics[np], 30))
+			return
+		}
+	}
 	if !quiesceAll(w, "C17", 60000) {
 		return
 	}
